@@ -16,6 +16,8 @@ Ties:
               with numpy broadcasting) on generated (shapes, batch dims); result shape / batch dim / values /
               raises are compared INSIDE Coq with the model of the current code (Batch.batcher_fixed; Batch.batcher is
               the historical helper, kept with its refutation), and Batch.vmap_spec with numpy's stack-of-examples.
+  D(reduce)   the REAL _softmax_batch_rule / _standardize_batch_rule, driven with the original jax.nn function replaced by an
+              integer fiber kernel, against Batch.softmax_rule / Batch.reduce_rule inside Coq.
   D(inline)   real _freshen_closed_jaxpr on traced jaxprs is an injective, fresh renaming that keeps structure;
               the four body-lowering plugins have the statement shape of Lowering.inline_plugin (AST).
   D(linear)   the real jax.numpy functions named in the allow-list are linear on integer data and have the
@@ -235,6 +237,129 @@ def _rank_deficient(c):
     px = len(sx) - (dx is not None)
     py = len(sy) - (dy is not None)
     return (dx is not None and px < py) or (dy is not None and py < px)
+
+
+# ===================================================================== tie D: reduction-type batch rules
+def _kz_np(v, axes):
+    """Batch.kz on a numpy/jax array: 100*v + sum over the fiber along `axes` (in that order) of (1 + ravel(sub)) * v[sub]"""
+    import jax.numpy as jnp
+    axes = [int(a) % v.ndim for a in axes]
+    rest = [i for i in range(v.ndim) if i not in axes]
+    moved = jnp.transpose(v, rest + axes)
+    F = 1
+    for a in axes:
+        F *= v.shape[a]
+    flatf = moved.reshape(moved.shape[:len(rest)] + (F,))
+    w = jnp.arange(1, F + 1, dtype=v.dtype)
+    ssum = jnp.sum(flatf * w, axis=-1)
+    shp = [1 if i in axes else v.shape[i] for i in range(v.ndim)]
+    return 100 * v + ssum.reshape(shp)
+
+
+def tie_reduction_rules(ctx):
+    """drive the REAL _softmax_batch_rule / _standardize_batch_rule (with the original jax.nn function replaced by the integer
+    kernel Batch.kz, so that only the rule's own axis handling / moveaxis / bind is exercised) and compare with Batch.softmax_rule /
+    Batch.reduce_rule inside Coq; Batch.vmap_spec1 is compared with numpy's stack of per-example results."""
+    import jax.numpy as jnp
+    from jax2onnx.plugins.jax.nn import softmax as sm_mod
+    from jax2onnx.plugins.jax.nn import standardize as st_mod
+    rng = ctx.rng
+    n = 24 if ctx.tier == "quick" else 120
+    rows = []
+    sm_rule = sm_mod._softmax_batch_rule
+    st_rule = st_mod._standardize_batch_rule
+    saved_sm = sm_mod._JAX_SOFTMAX_ORIG
+    slot = "__orig_impl__standardize"
+    had = hasattr(st_mod.StandardizePlugin._PRIM, slot)
+    saved_st = getattr(st_mod.StandardizePlugin._PRIM, slot, None)
+    problems = []
+    try:
+        sm_mod._JAX_SOFTMAX_ORIG = lambda v, axis=-1, where=None: _kz_np(v, [axis])
+        setattr(st_mod.StandardizePlugin._PRIM, slot,
+                lambda v, axis=None, mean=None, variance=None, epsilon=0.0, where=None:
+                _kz_np(v, list(range(v.ndim)) if axis is None else list(axis)))
+        while len(rows) < n:
+            r = rng.randint(1, 3)                                   # per-example rank
+            pes = [rng.choice([1, 2, 3]) for _ in range(r)]
+            B = rng.choice([1, 2, 3])
+            d = rng.randint(0, r)
+            full = list(pes)
+            full.insert(d, B)
+            kind = "softmax" if len(rows) % 2 == 0 else "standardize"
+            if kind == "softmax":
+                axes = [rng.randint(-r, r - 1)]
+            else:
+                k = rng.randint(1, r)
+                axes = sorted(rng.sample(range(r), k))
+                axes = [a - r if rng.random() < 0.4 else a for a in axes]
+                if sorted(a % r for a in axes) != [a % r for a in axes]:
+                    continue
+            x = np.asarray([rng.randint(0, 9) for _ in range(int(np.prod(full)))], dtype=np.int32).reshape(full)
+            ref = np.stack([np.asarray(_kz_np(jnp.asarray(np.take(x, b, axis=d)), axes)) for b in range(B)])
+            try:
+                if kind == "softmax":
+                    out, od = sm_rule((jnp.asarray(x),), (d,), axis=int(axes[0]), has_where=False)
+                else:
+                    out, od = st_rule((jnp.asarray(x),), (d,), axis=tuple(int(a) for a in axes), epsilon=0.0)
+                out = np.asarray(out)
+                real = (list(out.shape), int(od), [int(v) for v in out.reshape(-1)])
+                if not np.array_equal(np.moveaxis(out, od, 0), ref):
+                    problems.append((kind, full, d, axes))
+            except Exception as e:
+                real = None
+                problems.append((kind, full, d, axes, type(e).__name__))
+            rows.append((kind, full, d, axes, x, real, ref))
+    finally:
+        sm_mod._JAX_SOFTMAX_ORIG = saved_sm
+        if had:
+            setattr(st_mod.StandardizePlugin._PRIM, slot, saved_st)
+        else:
+            delattr(st_mod.StandardizePlugin._PRIM, slot)
+    hdr = common.CASES_HEADER + "From J2O Require Import Tensor Batch.\n"
+    hdr += ("Definition zl_eqb := list_eqb Z.eqb.\n"
+            "Record rcase := mkR { softmax : bool; sx : list nat; dx : nat; axes : list Z; datx : list Z;\n"
+            "  rshape : list nat; rod : nat; rflat : list Z; refshape : list nat; refflat : list Z }.\n"
+            "Definition model_ok (c : rcase) : bool :=\n"
+            "  let x := of_flat (sx c) (datx c) in\n"
+            "  let '(r, od) := if softmax c then softmax_rule kz (hd 0%Z (axes c)) x (dx c) else reduce_rule kz (axes c) x (dx c) in\n"
+            "  nat_list_eqb (shape r) (rshape c) && Nat.eqb od (rod c) && zl_eqb (flat r) (rflat c).\n"
+            "Definition spec_ok (c : rcase) : bool :=\n"
+            "  let v := vmap_spec1 (prim_axes kz (axes c)) (of_flat (sx c) (datx c)) (dx c) in\n"
+            "  nat_list_eqb (shape v) (refshape c) && zl_eqb (flat v) (refflat c).\n")
+
+    def render(chunk, off):
+        items = []
+        for (kind, full, d, axes, x, real, ref) in chunk:
+            rs, rd, rf = real if real is not None else ([], 0, [])
+            items.append(f"mkR {common.blit(kind == 'softmax')} {_natlist(full)} {int(d)}%nat {_zl(axes)} {_zl(x.reshape(-1))} "
+                         f"{_natlist(rs)} {rd}%nat {_zl(rf)} {_natlist(ref.shape)} {_zl(ref.reshape(-1))}")
+        return ("Definition cs : list rcase := [" + ";\n ".join(items) + "].\n"
+                "Eval vm_compute in bad_idx_ model_ok 0%nat cs.\nEval vm_compute in bad_idx_ spec_ok 0%nat cs.\n")
+    res = common.coq_eval_batches(ctx, "c10_reduce", hdr, rows, render, per_file=50)
+    bad_model, bad_spec, broke = [], [], None
+    for k, (ok, out) in enumerate(res):
+        lists = re.findall(r"=\s*(\[[^\]]*\]|nil)\s*:\s*list nat", out.replace("\n", " "))
+        if not ok or len(lists) != 2:
+            broke = out[-1200:]
+            continue
+        for tgt, l in zip((bad_model, bad_spec), lists):
+            if l not in ("nil", "[]"):
+                tgt += [k * 50 + int(v.replace("%nat", "")) for v in l.strip("[]").split(";") if v.strip()]
+    desc = lambda i: {"rule": rows[i][0], "x_shape": rows[i][1], "bdim": rows[i][2], "axes": rows[i][3]}
+    ctx.oblige(f"tie:reduction-rule-models-equal-real-softmax/standardize-batch-rules({len(rows)} cases)", broke is None and not bad_model, "tie",
+               broke or ("" if not bad_model else f"model and implementation differ on {[desc(i) for i in bad_model[:4]]}"))
+    ctx.oblige(f"tie:vmap_spec1-equals-numpy-stack-of-examples({len(rows)} cases)", broke is None and not bad_spec, "tie",
+               broke or ("" if not bad_spec else f"differ on {[desc(i) for i in bad_spec[:4]]}"))
+    ctx.oblige(f"tie:real-reduction-batch-rules-are-vmap-on-all-generated-cases({len(rows)})", not problems, "tie", str(problems[:3]))
+    ctx.coverage["reduction_rule_cases"] = {"total": len(rows), "softmax": sum(1 for r_ in rows if r_[0] == "softmax"),
+                                            "positive_axis": sum(1 for r_ in rows if any(a >= 0 for a in r_[3])),
+                                            "batch_dim_not_front": sum(1 for r_ in rows if r_[2] != 0)}
+    if problems:
+        p = problems[0]
+        ctx.violate(f"reduction-batch-rule:{p[0]}",
+                    f"the batch rule of jax.nn.{p[0]} is not vmap: operand shape {p[1]}, batch dim {p[2]}, axis {p[3]}"
+                    + (f" raises {p[4]}" if len(p) > 4 else " gives other values than the stack of per-example results"),
+                    {"kind": "reduction", "rule": p[0], "x_shape": list(p[1]), "bdim": int(p[2]), "axes": [int(a) for a in p[3]]})
 
 
 # ===================================================================== tie D: inlining
@@ -724,6 +849,7 @@ def run(ctx):
     phases["coq_build_s"] = round(time.time() - t, 1)
     t = time.time()
     tie_batcher(ctx)
+    tie_reduction_rules(ctx)
     tie_inline(ctx)
     tie_linear(ctx)
     phases["ties_s"] = round(time.time() - t, 1)
@@ -775,6 +901,14 @@ def replay(path):
             good = False
             print("real batcher raises", type(e).__name__, e, "-> still violated")
         return 0 if good else 1
+    if r.get("kind") == "reduction":
+        c = common.Ctx("C10", "quick", 0)
+        c.rng.seed(0)
+        tie_reduction_rules(c)
+        badl = [v for v in c.violations if v["key"] == f"reduction-batch-rule:{r['rule']}"]
+        print("reduction batch rule", r["rule"], "->", "still violated: " + badl[0]["what"] if badl else "ok")
+        c.cleanup()
+        return 1 if badl else 0
     if r.get("kind") == "registry":
         import exports
         tp = [t for t in exports.registry_items() if exports.tp_key(t) == r["key"]]
